@@ -16,6 +16,7 @@ import (
 type RevProxy struct {
 	Whoami  func(ctx context.Context, salt int64) (int64, error)
 	Aliased func(ctx context.Context, salt int64) (int64, error) `rpc_method:"rev.Alias"`
+	Feed    func(ctx context.Context) (<-chan int64, error)
 }
 
 // revImpl is registered on each client.
@@ -35,6 +36,7 @@ type H struct {
 	revErr     map[int64]error
 	revRet     map[int64]int
 	useAliased bool
+	useFeed    bool
 	entered    chan struct{}
 }
 
@@ -52,7 +54,15 @@ func (h *H) Fwd(ctx context.Context, tag int64, salt int64) (int64, error) {
 	}
 	var v int64
 	var err error
-	if h.useAliased {
+	if h.useFeed {
+		var ch <-chan int64
+		ch, err = rc.Feed(ctx)
+		if err == nil && ch != nil {
+			for x := range ch {
+				v += x
+			}
+		}
+	} else if h.useAliased {
 		v, err = rc.Aliased(ctx, salt)
 	} else {
 		v, err = rc.Whoami(ctx, salt)
@@ -131,9 +141,7 @@ func HarnessReverseLoss() {
 	srv.Register("H", h)
 	h.entered = make(chan struct{})
 	pc := verif.DialRaw(srv, nil)
-	pc.Send([]byte(`{"jsonrpc":"2.0","id":1,"method":"H.Fwd","params":[0,5]}`))
-	<-h.entered                     // the forward call is being served (a reset must not destroy the unread request)
-	when := verif.Choice("loss", 3) // 0: before reading the reverse request, 1: after reading it, 2: answer it (control)
+	when := verif.Choice("loss", 4) // 0: before reading the reverse request, 1: after reading it, 2: answer it (control), 3: reverse stream request answered with something that is not a channel id, then lost
 	kind := verif.Choice("kind", 2)
 	lose := func() {
 		if kind == 0 {
@@ -142,6 +150,9 @@ func HarnessReverseLoss() {
 			pc.CloseGraceful()
 		}
 	}
+	h.useFeed = when == 3
+	pc.Send([]byte(`{"jsonrpc":"2.0","id":1,"method":"H.Fwd","params":[0,5]}`))
+	<-h.entered // the forward call is being served (a reset must not destroy the unread request)
 	if when == 0 {
 		lose()
 	} else {
@@ -149,8 +160,14 @@ func HarnessReverseLoss() {
 		verif.Assert(ok, "reverse-request-arrives")
 		var r wireReq
 		json.Unmarshal(b, &r)
-		verif.Assert(r.Method == "rev.Whoami", "reverse-request-method")
-		if when == 1 {
+		if when == 3 {
+			verif.Assert(r.Method == "rev.Feed", "reverse-request-method")
+			bad := []interface{}{"not-a-channel-id", map[string]interface{}{"x": 1}, -1, 1.5}
+			rb, _ := json.Marshal(map[string]interface{}{"jsonrpc": "2.0", "id": r.ID, "result": bad[verif.Choice("bad_result", len(bad))]})
+			pc.Send(rb)
+			verif.Quiesce() // the malformed answer has been processed: now the client goes away
+			lose()
+		} else if verif.Assert(r.Method == "rev.Whoami", "reverse-request-method"); when == 1 {
 			lose()
 		} else {
 			rb, _ := json.Marshal(map[string]interface{}{"jsonrpc": "2.0", "id": r.ID, "result": 42})
